@@ -36,7 +36,10 @@ HOSTILE_PATHS = ["//evil.example/x", "/@evil.example/x", "/api/@evil.example", "
                  "/api/..//evil.example/", "/api/%2F%2Fevil.example/", "/api/%40evil.example", "/api/;host=evil.example",
                  "/apikey", "/api", "/api/", "/api/v1", "/api/v1/x", "/a/b", "/a/b/c", "/mirror", "/mirror/../api/x",
                  "/api/./x", "/api/x/../../y", "", "/", "/api/x?y=@evil.example", "/api/x?//evil.example", "/api/x??",
-                 "/api/:1966", "/api/x%3Fy", "/api/x%23y", "/\\evil.example/x", "/api/\\\\evil.example"]
+                 "/api/:1966", "/api/x%3Fy", "/api/x%23y", "/\\evil.example/x", "/api/\\\\evil.example",
+                 # raw non-ASCII in forms that Unicode normalisation would re-spell (decomposed accents, compatibility singletons)
+                 "/api/cafe\u0301/menu?q=re\u0301sume\u0301", "/mirror/\u212a/280", "/api/x\u037ey=1", "/api/\u1112\u1161\u11ab",
+                 "/api/caf\u00e9/\u65e5\u672c"]
 
 
 @st.composite
@@ -71,6 +74,7 @@ def case_st(draw):
                                             {"prefix": "/mirror/", "strip": False}, {"prefix": "/a/", "strip": True}])),
             "second_first": draw(st.booleans()),
             "up_reply": draw(st.sampled_from(["20", "20", "redirect-lookalike-host", "redirect-lookalike-port", "redirect-self", "redirect-other"])),
+            "via": draw(st.sampled_from(["object", "dict", "dict"])),  # LocationConfig(...) or LocationConfig.from_dict(...) as TOML loading does
             "companion": draw(st.integers(0, 3)) == 0,  # a second request for the same path with another query, in flight together
             "static_after": draw(st.booleans()), "url": url, "path": path or "/", "query": query, "labels": labels}
 
@@ -102,16 +106,24 @@ def run_case(case: dict):
     locs = []
     if case["static_first"]:
         locs.append(LocationConfig(prefix=case["static_first"], handler_type=HandlerType.STATIC, document_root=root))
-    main = LocationConfig(prefix=case["prefix"], handler_type=HandlerType.PROXY, upstream=case["upstream"],
-                          strip_prefix=case["strip"], timeout=5.0)
     sec = case.get("second")
     if sec and sec["prefix"] == case["prefix"]:
         sec = None
-    second = LocationConfig(prefix=sec["prefix"], handler_type=HandlerType.PROXY, upstream=case["upstream"],
-                            strip_prefix=sec["strip"], timeout=5.0) if sec else None
-    plist = [(case["prefix"], case["strip"], main)]
-    if second:
-        plist = ([(sec["prefix"], sec["strip"], second)] + plist) if case.get("second_first") else (plist + [(sec["prefix"], sec["strip"], second)])
+
+    def mk(prefix, strip):
+        if case.get("via", "object") == "object":
+            return LocationConfig(prefix=prefix, handler_type=HandlerType.PROXY, upstream=case["upstream"], strip_prefix=strip, timeout=5.0)
+        # as written in a configuration file: optional keys are left out when they have their default value
+        d = {"prefix": prefix, "handler": "proxy", "upstream": case["upstream"], "timeout": 5.0}
+        if strip:
+            d["strip_prefix"] = True
+        return LocationConfig.from_dict(d)
+
+    # locations are created in the order in which they appear in the configuration
+    order_spec = [(case["prefix"], case["strip"])]
+    if sec:
+        order_spec = ([(sec["prefix"], sec["strip"])] + order_spec) if case.get("second_first") else (order_spec + [(sec["prefix"], sec["strip"])])
+    plist = [(pre, strip, mk(pre, strip)) for pre, strip in order_spec]
     locs += [x[2] for x in plist]
     if case["static_after"]:
         locs.append(LocationConfig(prefix="/", handler_type=HandlerType.STATIC, document_root=root))
@@ -169,7 +181,8 @@ def run_case(case: dict):
         return viol("more-than-one-upstream-connection", f"{conns}", **info)
     # which location is responsible (reference: first prefix that is a string prefix of the path)
     path = case["path"]
-    if any(ord(ch) <= 0x20 or ord(ch) > 0x7E for ch in case["url"]):
+    if any(ord(ch) <= 0x20 or 0x7F <= ord(ch) < 0xA0 for ch in case["url"]) or \
+            ("hostile" not in case["labels"] and any(ord(ch) > 0x7E for ch in case["url"])):
         return grey("blank-or-control-in-url", **info)
     order = ([(case["static_first"], None)] if case["static_first"] else []) + [(x[0], x[1]) for x in plist] + \
         ([("/", None)] if case["static_after"] else [])
